@@ -5,11 +5,11 @@ READY = os.environ.get('READY', '').split() or [l.strip() for l in open(os.path.
 BASE_NOTE = ('Trusted base: CPython 3.12, NumPy 2.5, SciPy 1.18, the oracle code under vf/oracles (short scalar reference '
              'models that do not import eqsig). Decides only the executions produced by the workload; universality is not claimed.')
 T = {
- 'C01': ('post-condition monitor vs 60-digit mpmath propagator + 80-bit recurrence', 'every call of the elastic-response entry points made by a seeded hostile workload is compared, sample by sample, with an independently derived exact propagator (coefficients in 60-digit arithmetic, recurrence in long double) under the tolerance written in the property; third-series identity and T=0 row are checked exactly', '5/C01'),
+ 'C01': ('post-condition monitor vs 60-digit mpmath propagator + 80-bit recurrence', 'every call of the elastic-response entry points made by a seeded hostile workload is compared, sample by sample, with an independently derived exact propagator (coefficients in 60-digit arithmetic, recurrence in long double) under the tolerance written in the property; third-series identity and T=0 row are checked exactly; the object-level entry point is judged against the period list the caller gave (per call, constructor keyword, attribute; list/tuple/array forms) and the object\'s current values', '5/C01'),
  'C02': ('offline trace checker over groups of related executions', 'groups of related calls (linear combinations, truncations, zero-prefix shifts, period permutations/partitions, integer refinements 2..8, object-level min_dt_ratio pairs) are executed on the real functions and the recorded outputs are checked against each other; the oracle is the other execution', '5/C02'),
- 'C03': ('post-condition monitor (peaks recomputed from the monitored response series, exact-rational 6dt knife edge, refinement search for the object API)', 'spectra returned by the real functions and by AccSignal are recomputed from the library\'s own (C01-monitored) response series and from an own refinement of the record; knife-edge periods at exactly 6*dt are decided in exact rational arithmetic', '5/C03'),
- 'C04': ('invariant at a hook after every operation of a history (deep-copied observation vs freshly built twin); BFS over observational cache states', 'after every operation of exhaustive (cache-state x mutator x mutator) and long random histories every observable of a deep copy of the live object is compared with a freshly constructed twin; signal objects returned by library functions applied to the live object are compared with fresh twins of their own; reads are checked for idempotence and non-interference', '5/C04'),
- 'C05': ('icontract class invariant + before/after byte snapshots of every argument + call-twice repeatability + observables of signal arguments + ownership of returned signals', 'class invariants on Signal/AccSignal after every public method, bit-for-bit snapshots of caller arrays across mutator sequences (both directions), a purity/repeatability wrapper around every public array-level function, all public observables of signal-object arguments before/after each analysis call and after sequences of analysis calls on one object, and ownership (identity, shared memory, in-place correction) of every signal object a library function returns', '5/C05'),
+ 'C03': ('post-condition monitor (peaks recomputed from the monitored response series, exact-rational 6dt knife edge, refinement search for the object API)', 'spectra returned by the real functions and by AccSignal are recomputed from the library\'s own (C01-monitored) response series and from an own refinement of the record; knife-edge periods at exactly 6*dt are decided in exact rational arithmetic; the object must use exactly the periods the caller gave in any container form', '5/C03'),
+ 'C04': ('invariant at a hook after every operation of a history (deep-copied observation vs freshly built twin); BFS over observational cache states', 'after every operation of exhaustive (cache-state x mutator x mutator) and long random histories every observable of a deep copy of the live object is compared with a freshly constructed twin; signal objects returned by library functions applied to the live object are compared with fresh twins of their own; reads are checked for idempotence and non-interference; the operation alphabet includes attribute assignment, refused and non-finite-input operations (the invariant is judged after a raise too) and settings assignments that must stick; copy.copy / copy.deepcopy / pickle clones in every cache state, with a value change on either side and live reads in both orders, must each equal a fresh twin of their own values', '5/C04'),
+ 'C05': ('icontract class invariant + before/after byte snapshots of every argument + call-twice and call-after-other-inputs repeatability + observables of signal arguments + ownership of returned signals and clones', 'class invariants on Signal/AccSignal after every public method, bit-for-bit snapshots of caller arrays across mutator sequences (both directions), a purity/repeatability wrapper around every public array-level function (same result when called again, also after calls with other inputs in between), all public observables of signal-object arguments before/after each analysis call and after sequences of analysis calls on one object, and ownership (identity, shared memory, in-place correction) of every signal object a library function returns', '5/C05'),
  'C06': ('post-condition monitor vs direct O(N^2) DFT', 'every spectrum produced by the object- and array-level functions is compared bin by bin with a direct DFT of the zero-padded record on the stated grid; Parseval with oracle-computed Nyquist term, linearity, trailing-zero invariance, inverse and dominant period are checked', '5/C06'),
  'C07': ('post-condition monitor vs scalar double-loop Konno-Ohmachi weights', 'every smoothed value is recomputed with per-pair weights in a scalar loop; range, constant reproduction, scaling, matrix-vs-direct and bandwidth ordering are monitored', '5/C07'),
  'C08': ('post-condition monitor: increment identities per index + trace relations', 'the trapezoid/rectangle increment identity is evaluated at every index of every returned series, closed forms for constant/linear acceleration, peaks vs max abs, sign/scale relations', '5/C08'),
